@@ -1,4 +1,4 @@
-// C06 — type registry hands out unique, stable, correctly described types      vp-link: core
+// C06 — type registry hands out unique, stable, correctly described types      vp-link: core io
 //
 // G: history of mpt_type_basic_add(size) / mpt_type_add(traits) / mpt_type_interface_add(name|NULL) /
 //    mpt_type_metatype_add(name|NULL) (single, in bulk across the 30-entry chunk boundaries, or until the
@@ -89,6 +89,7 @@ struct Model {
 };
 
 extern "C" int __lsan_do_recoverable_leak_check(void) __attribute__((weak));
+namespace mpt { extern "C" const named_traits *mpt_input_type_traits(void); }  // mptio/notify.h: the library's own get-or-register helper
 static int h_init(void *, const void *) { return 0; }
 static void h_fini(void *) {}
 static std::deque<type_traits> &harness_traits() { static std::deque<type_traits> d; return d; }
@@ -416,6 +417,37 @@ struct Reg {
     if (what <= 5) lookup_id(id);
     if (failed && c.flip()) full_scan("after injected failure");
   }
+  // The library's own get-or-register helper for its input metatype (mptio/input_traits.c), possibly after the process
+  // registered an interface and/or a metatype of the same name. It must hand out a METATYPE entry of its own named
+  // "mpt.input" (next sequential id, distinct from everything registered before) or NULL (metatype name taken / range
+  // full), and the same answer on every call; its static cache starts empty in every (forked) case.
+  const named_traits *helper_result = 0;
+  bool helper_called = false;
+  void library_helper() {
+    if (c.flip()) { add_named(KIface, false, "mpt.input"); verify_all("after registration", false); }
+    if (c.chance(64)) { add_named(KMeta, false, "mpt.input"); verify_all("after registration", false); }
+    bool taken = name_taken(KMeta, "mpt.input"), full = m.e[KMeta].size() >= capacity(KMeta);
+    const named_traits *a = mpt_input_type_traits(), *b = mpt_input_type_traits();
+    c.logf("mpt_input_type_traits() -> %p, again -> %p%s", (const void *)a, (const void *)b, helper_called ? " (called before in this case)" : "");
+    VP_CHECK(c, a == b, "helper-unstable", "mpt_input_type_traits() returned %p, then %p", (const void *)a, (const void *)b);
+    c.label(a ? "helper:entry" : "helper:null");
+    if (helper_called && helper_result) { VP_CHECK(c, a == helper_result, "helper-unstable", "mpt_input_type_traits() returned %p earlier in this case, now %p", (const void *)helper_result, (const void *)a); return; }
+    helper_called = true;
+    if (!a) {
+      VP_CHECK(c, taken || full, "helper-refused", "mpt_input_type_traits() is NULL although no metatype is named \"mpt.input\" and %zu of %zu metatype ids are in use", m.e[KMeta].size(), capacity(KMeta));
+      return;
+    }
+    if (helper_result) return;
+    for (int k = 0; k < NKind; k++) for (auto &x : m.e[k])
+      VP_CHECK(c, x.id != a->type && x.nt != a && x.tt != &a->traits, "helper-shares-entry", "mpt_input_type_traits() returned id 0x%zx '%s': that is the %s entry registered earlier by the process (id 0x%zx), not an input metatype of its own", (size_t)a->type, a->name ? a->name : "(null)", kKind[k], (size_t)x.id);
+    VP_CHECK(c, a->type >= kBase[KMeta] && a->type <= kLast[KMeta], "helper-wrong-kind", "mpt_input_type_traits() returned id 0x%zx, outside the metatype range", (size_t)a->type);
+    VP_CHECK(c, a->name && !strcmp(a->name, "mpt.input"), "helper-wrong-kind", "mpt_input_type_traits() returned an entry named '%s'", a->name ? a->name : "(null)");
+    VP_CHECK(c, !taken && !full, "duplicate-accepted", "mpt_input_type_traits() registered a second metatype named \"mpt.input\" (id 0x%zx)", (size_t)a->type);
+    helper_result = a;
+    const type_traits *tt = &a->traits;
+    after_success(KMeta, Entry{a->type, true, "mpt.input", a, tt, tt->size, tt->init, tt->fini});
+    verify_all("after library helper", false);
+  }
   uintptr_t draw_typed_id() {
     size_t pool = c.weighted({4, 3, 3, 2, 1, 1});
     switch (pool) {
@@ -573,7 +605,8 @@ static void history(Ctx &c, Reg &r) {
   while (c.more()) {
     bool added = false, refused = false;
     size_t opbyte = c.range(0, 255), op = 0;
-    if (opbyte >= 0xe0 && opbyte < 0xf0) op = 10;  // injected allocation failure (last round)
+    if (opbyte >= 0xdc && opbyte < 0xe0) op = 11;  // the library's own get-or-register helper (last job)
+    else if (opbyte >= 0xe0 && opbyte < 0xf0) op = 10;  // injected allocation failure (last round)
     else if (opbyte >= 0xf0) op = 9;  // new in round 7; below 0xf0 the byte decodes exactly as weighted({4,4,6,6,7,8,3,1,2}) did
     else { static const unsigned w[] = {4, 4, 6, 6, 7, 8, 3, 1, 2}; unsigned r = opbyte % 41; while (r >= w[op]) r -= w[op++]; }
     switch (op) {
@@ -594,6 +627,7 @@ static void history(Ctx &c, Reg &r) {
       case 7: r.full_scan("in history"); break;
       case 9: { uintptr_t a = r.draw_typed_id(), b = r.draw_typed_id(); r.probe_pair(a, b); } break;
       case 10: r.injected_step("in history"); break;
+      case 11: r.library_helper(); break;
       default: {  // small ranges run dry
         int k = c.flip() ? KBasic : KIface;
         r.exhaust(k, c.flip(), c.range(1, 3));
